@@ -419,7 +419,13 @@ def op_head(w, ev, slot):
 
     def do(real):
         return real.head(n, m)
-    return _newtable(w, ev, slot, 'head', do, expected, 'head.result')
+    def adopt(res):
+        # the leading block is specified; the table type of the result is not
+        expected.type = res.type
+        w.expect_table(res, expected, 'head.result', True, 'head result')
+        return expected
+    return _newtable(w, ev, slot, 'head', do, expected, 'head.result',
+                     adopt=None if isinstance(expected, ModelError) else adopt)
 
 
 # ============================================================== reordering ==
